@@ -287,6 +287,9 @@ def run(prop, seed, budget, ctx):
                                              why=["older-dialect-and-2020-12-schema-disagree-on-an-instance"]))
             else:
                 evaluations += 1; hist[ver] += 1
+    if prop == "C07":
+        from schema_conv import run_conv_schema
+        cf, cn = run_conv_schema(rnd, seed, budget, hist, distinct, build_module); failures += cf; evaluations += cn
     for f in failures:
         hist[("P:" + f["why"][0].split(":")[0]) if f["kind"] == "P" else "K"] += 1
     return {"evaluations": evaluations, "distinct_nontrivial": len(distinct),
@@ -330,6 +333,8 @@ KF = {
     "KF46": lambda c: "aggregate-flatten" in c["features"] and c.get("version") == "DRAFT_7" and
                       (c["why"][0] == "keyword-outside-the-target-vocabulary:unevaluatedProperties" or
                        (c["why"] == ["older-dialect-and-2020-12-schema-disagree-on-an-instance"] and "unevaluatedProperties" in json.dumps(c.get("real")))),
+    # a set whose elements are converted by a non-injective conversion: the images repeat, the schema says uniqueItems
+    "KF48": lambda c: c.get("part") == "converted" and _why(c, "serialized-value-does-not-validate") and c.get("only_unique_items") is True and "FrozenSet" in c["py"],
     # constraints on the float image of a large integer (checked after float(int) has rounded)
     "KF41": lambda c: c.get("k_ok") is not False and _f(c, "cfloat") and has_big_int(c["d"]),
 }
@@ -360,6 +365,9 @@ def replay(prop, case, ctx):
     from apischema import deserialize, serialize, ValidationError, settings
     from apischema.json_schema import deserialization_schema, serialization_schema, JsonSchemaVersion
     from common import proto_py
+    if case.get("part") == "converted":
+        return {"type": case["py"], "conversion": case["conversion"], "mode": case["mode"], "value": case["value"], "serialized": case["serialized"],
+                "schema": case["real"], "recorded": case["why"]}
     mod = build_module("\n".join(Pool.HEADER + case["src"]), "schreplay"); ns = dict(vars(mod)); tp = eval(case["py"], ns)
     out = {"type": case["py"], "recorded": case.get("why")}
     if prop == "C06":
